@@ -306,19 +306,17 @@ def Spec.VolumesOk (vs out : List Text) : Prop :=
 instance (vs out) : Decidable (Spec.VolumesOk vs out) := by
   unfold Spec.VolumesOk; infer_instance
 
-/-- which key/value pairs the labels must hold: created, the two vcs keys when vcs-url has an
-`@`, and every declared annotation under another key -/
+/-- which key/value pairs the labels must hold: created; the two vcs keys when vcs-url has an
+`@`; and every declared annotation under another key -/
 def Spec.expectedLabel (ic : ImageCfg) (created : Text) (kv : Text × Text) : Prop :=
   kv = (keyCreated, created) ∨
-  (∃ uh, cutAt '@' ic.vcsUrl = some uh ∧ (kv = (keySource, uh.1) ∨ kv = (keyRevision, uh.2))) ∨
-  (kv ∈ ic.annotations ∧ kv.1 ≠ keyCreated ∧
-    ((cutAt '@' ic.vcsUrl).isSome → kv.1 ≠ keySource ∧ kv.1 ≠ keyRevision))
+  match cutAt '@' ic.vcsUrl with
+  | some uh => kv = (keySource, uh.1) ∨ kv = (keyRevision, uh.2) ∨
+      (kv ∈ ic.annotations ∧ kv.1 ≠ keyCreated ∧ kv.1 ≠ keySource ∧ kv.1 ≠ keyRevision)
+  | none => kv ∈ ic.annotations ∧ kv.1 ≠ keyCreated
 
 instance (ic created kv) : Decidable (Spec.expectedLabel ic created kv) := by
-  unfold Spec.expectedLabel
-  cases h : cutAt '@' ic.vcsUrl with
-  | none => simp; infer_instance
-  | some uh => simp; infer_instance
+  unfold Spec.expectedLabel; split <;> infer_instance
 
 /-- the vcs-url `url@hash` shows as source / revision labels -/
 def Spec.VcsLabelsOk (ic : ImageCfg) (out : List (Text × Text)) : Prop :=
@@ -351,19 +349,16 @@ def Spec.ConfigOk (shlex : Text → Option (List Text)) (ic : ImageCfg) (created
 instance (ic created arch o) : Decidable (Spec.ScalarsOk ic created arch o) := by
   unfold Spec.ScalarsOk; infer_instance
 
-/-- executable form of the oracle used by the driver: the first part of `Spec.ConfigOk` that fails.
-(`Spec.EntrypointOk` mentions the function `shlex`; it is decidable for every concrete `shlex`.) -/
+instance (shlex ic o) : Decidable (Spec.EntrypointOk shlex ic o) := by
+  unfold Spec.EntrypointOk; infer_instance
+
+/-- executable form of the oracle used by the driver: the first part of `Spec.ConfigOk` that fails -/
 def Spec.configVerdict (shlex : Text → Option (List Text)) (ic : ImageCfg) (created arch : Text) (o : OciConfig) : String :=
-  let epOk : Bool :=
-    (if ic.epShell ≠ [] then decide (o.entrypoint = ["/bin/sh".toList, "-c".toList, ic.epShell])
-     else if ic.epCmd ≠ [] then decide (shlex ic.epCmd = some o.entrypoint)
-     else decide (o.entrypoint = [])) &&
-    (if ic.cmd ≠ [] then decide (shlex ic.cmd = some o.cmd) else decide (o.cmd = []))
-  if !epOk then "fail:entrypoint-cmd"
-  else if !decide (Spec.EnvOk ic.env o.env) then "fail:env"
-  else if !decide (Spec.VolumesOk ic.volumes o.volumes) then "fail:volumes"
-  else if !decide (Spec.LabelsOk ic created o.labels) then "fail:labels"
-  else if !decide (Spec.ScalarsOk ic created arch o) then "fail:scalars"
+  if ¬ Spec.EntrypointOk shlex ic o then "fail:entrypoint-cmd"
+  else if ¬ Spec.EnvOk ic.env o.env then "fail:env"
+  else if ¬ Spec.VolumesOk ic.volumes o.volumes then "fail:volumes"
+  else if ¬ Spec.LabelsOk ic created o.labels then "fail:labels"
+  else if ¬ Spec.ScalarsOk ic created arch o then "fail:scalars"
   else "pass"
 
 end Apko.Oci
